@@ -160,6 +160,10 @@ def jobs(tier):
     for a, b in combos2:
         out.append(Climatology(nmax, [a, b]))
     out.append(Climatology(2, [M(None, True, False), M("month", False, True)], as_object=True))
+    # three members whose period kinds interleave: configuration order must win over any grouping by period
+    out.append(Climatology(1, [M("month", True, False), M(None, True, False), M("month", True, False)]))
+    out.append(Climatology(1, [M(None, False, True), M("week", True, False), M(None, True, True)]))
+    out.append(Climatology(1, [M("dayofyear", True, False), M("quarter", True, False), M("dayofyear", False, False)], as_object=True))
     if tier == "thorough":
         out.append(Climatology(2, [M(None, True, True), M("month", True, True), M("week", False, False)]))
         out.append(Climatology(2, [M("year", True, False), M("dayofweek", False, True), M(None, True, True)]))
